@@ -230,6 +230,8 @@ def replay_generic(prop, rep_json, monitors=("budget",)):
     mode = w.get("mode", "interp")
     j = Job("framework.props.models", "replay_model", {"prop": prop, "witness": w, "monitors": list(monitors)},
             mode=mode, timeout=600)
+    if w.get("stream") == "big":
+        j = Job("framework.props.bigrun", "replay_big", {"prop": prop, "witness": w}, mode="jit", timeout=600)
     common.run_jobs([j])
     if j.status != "ok":
         print("replay could not run: %s\n%s" % (j.status, j.stderr[-2000:]))
